@@ -8,7 +8,7 @@ def run(tier):
     progs = en.curated() + en.curated(names=["mixed14", "headless", "stratutil"], manual=True)
     classes = en.cls("REQ", "GUARD", "SELECT", "RNG", "UTIL", "RANK")
     args = ["--tier", tier, "--dev", "2" if thorough else "1", "--batch", "3" if thorough else "2",
-            "--classes", str(classes), "--deadline", str(1500 if thorough else 150), "--dev-immediate", "1" if thorough else "0"]
+            "--classes", str(classes), "--deadline", str(en.TD if thorough else 150), "--dev-immediate", "1" if thorough else "0"]
     if thorough:
         fam = en.systematic(4) + en.spines()
         for p in fam:
@@ -19,7 +19,7 @@ def run(tier):
         for p in progs:
             if p.name in ("mixed14", "ortho89", "nestutil"):
                 p.args = ["--batch", "1"]  # the big programs: all single requests + deviations; pairs are covered on the smaller ones
-    res = en.run_all(chk, "C03", progs, args, timeout=(2400 if thorough else 400))
+    res = en.run_all(chk, "C03", progs, args, timeout=(en.TD + 900 if thorough else 400))
     en.aggregate(chk, res, "C03")
     chk.coverage["explanation"] = (
         "Same exhaustive exploration as C03's sibling checks (BFS fixpoint over quiescent states x deviation-bounded "
